@@ -115,6 +115,10 @@ impl Thread {
 
                     let mut el = Element::new(push_pop_type, pointer, in_expression_evaluation);
 
+                    if let Some(function_start) = j_element_obj.get("fnStart") {
+                        el.function_start_in_output_stream = json_read::as_i32(function_start)?;
+                    }
+
                     if let Some(temps) = j_element_obj.get("temp").and_then(|temp| temp.as_object())
                     {
                         el.temporary_variables = json_read::jobject_to_hashmap_values(temps)?;
@@ -164,6 +168,15 @@ impl Thread {
             }
             el_map.insert("exp".to_owned(), json!(el.in_expression_evaluation));
             el_map.insert("type".to_owned(), json!(el.push_pop_type as u32));
+
+            // Where the function's text starts in the line being built (-1 once
+            // its leading whitespace has been trimmed): the line goes on after a load
+            if el.function_start_in_output_stream != 0 {
+                el_map.insert(
+                    "fnStart".to_owned(),
+                    json!(el.function_start_in_output_stream),
+                );
+            }
 
             if !el.temporary_variables.is_empty() {
                 el_map.insert(
